@@ -8,8 +8,8 @@ A Go `string` is a byte string; the translated code handles valid UTF-8 text onl
 -/
 namespace Knut.GoSem.Strings
 
-/-- `len(s)` -/
-@[simp] def byteLen (s : String) : Int := (s.utf8ByteSize : Int)
+/-- `len(s)`: the number of bytes of the UTF-8 encoding -/
+def byteLen (s : String) : Int := ((s.toList.map Char.utf8Size).sum : Nat)
 /-- `utf8.RuneCountInString(s)` for valid UTF-8 -/
 @[simp] def RuneCount (s : String) : Int := (s.length : Int)
 /-- `strings.Repeat(s, n)` (panics for negative `n` in Go: callers in the subset pass lengths) -/
